@@ -129,8 +129,9 @@ class SourceFile:
         self.filename = filename
         self.source = self.filename.read_text("utf-8")
 
-    def rewrite(self):
-        new_code = self.new_code()
+    def rewrite(self, new_code=None):
+        if new_code is None:
+            new_code = self.new_code()
 
         with open(self.filename, "bw") as code:
             code.write(new_code.encode())
